@@ -259,6 +259,10 @@ def check_case(case, d, part):
             cfg,
         )
 
+    # a scalar index naming an HDU without image data (the empty primary HDU): the index still "applies to every
+    # file", so the only acceptable outcomes are a refusal or ... nothing else; returning some other HDU's image
+    # means the selection was dropped
+    names_empty = isinstance(hdu_sel, int) and any(LAYOUTS[l][hdu_sel] == "E" for l in layouts)
     try:
         with quiet():
             coll = build_collection(entry, paths, hdu_sel, key_sel)
@@ -266,12 +270,21 @@ def check_case(case, d, part):
             imgs = list(coll.images())
             simple = list(coll.export_simple())
     except Exception as e:
+        if names_empty:
+            return
         bad("raises:%s" % type(e).__name__, repr(e))
         return
+    if names_empty:
+        bad("selection-ignored", "index %r names an HDU without image data in some file, yet the collection yields %d images of shapes %r" % (hdu_sel, len(imgs), [tuple(i.shape) for i in imgs]))
+        return
+    nh = [len(LAYOUTS[l]) for l in layouts]
+    # (indices are compared as positions: -1 and the count minus one name the same HDU)
+    simple = [(p_, (i_ % nh[j]) if isinstance(i_, int) else i_) for j, (p_, i_) in enumerate(simple)] if len(simple) == n else simple
+    exp_pos = [i_ % nh[j] for j, i_ in enumerate(exp_idx)]
     if len(descs) != n or len(imgs) != n:
         bad("count", "got %d descriptions, %d images for %d inputs" % (len(descs), len(imgs), n))
         return
-    if simple != [(p, i) for p, i in zip(paths, exp_idx)]:
+    if simple != [(p, i) for p, i in zip(paths, exp_pos)]:
         bad("export_simple", "export_simple=%r expected indices %r" % (simple, exp_idx))
     for i in range(n):
         data, w = expected(paths[i], exp_idx[i], exp_key[i])
@@ -316,7 +329,7 @@ def check_case(case, d, part):
 def gen_cases(tier):
     lay_names = ["A", "B", "C"]
     if tier == "quick":
-        combos = [("A",), ("C",), ("D",), ("V",), ("L",), ("A", "B"), ("B", "C"), ("D", "A"), ("L", "L"), ("V", "A"), ("A", "A=0"), ("A", "B", "C"), ("C", "A", "A"), ("B", "D", "B=0"), ("L", "V", "L")]
+        combos = [("A",), ("C",), ("D",), ("V",), ("L",), ("A", "B"), ("B", "C"), ("D", "A"), ("L", "L"), ("V", "A"), ("A", "A=0"), ("C", "L"), ("C", "B"), ("A", "B", "C"), ("C", "A", "A"), ("B", "D", "B=0"), ("L", "V", "L")]
     else:
         lay_names = ["A", "B", "C", "D", "L", "V"]
         combos = []
@@ -328,16 +341,25 @@ def gen_cases(tier):
         n = len(layouts)
         valid = [SELECTABLE.get(l.split("=")[0], image_hdus(l.split("=")[0])) for l in layouts]
         common = sorted(set(valid[0]).intersection(*valid[1:]))
-        hdu_sels = [None] + common + [list(t) for t in itertools.product(*valid)]
+        names = [l.split("=")[0] for l in layouts]
+        # scalars counted from the end (each file's own last / last-but-one HDU), where that is an image in every file
+        negative = [k for k in (-1, -2) if all(LAYOUTS[l][k] in "PIKUV" for l in names)]
+        # index 0 where some file's primary HDU is empty (must not silently become "no selection")
+        zero = [0] if any(LAYOUTS[l][0] == "E" for l in names) and "L" not in names else []
+        hdu_sels = [None] + common + negative + zero + [list(t) for t in itertools.product(*valid)]
         key_sels = [" ", "A"] + [list(t) for t in itertools.product([" ", "A"], repeat=n)]
         for h in hdu_sels:
             for k in key_sels:
                 for entry in ("load", "simple", "cli", "load_str"):
+                    if isinstance(h, int) and h < 0 and entry == "cli":
+                        continue  # a leading minus sign is an option to the argument parser
                     if entry == "cli" and not cli_expressible(h, k):
                         continue
                     if entry == "load_str" and n != 1:
                         continue
                     cases.append((layouts, h, k, entry))
+                if isinstance(h, int) and (h < 0 or (h == 0 and zero)):
+                    continue  # (the command-line routes run a whole tiling: kept to selections that can succeed)
                 if cli_expressible(h, k):
                     cases.append((layouts, h, k, "view"))
                 if isinstance(h, int) and isinstance(k, str):
